@@ -41,10 +41,11 @@ func endBack(v uint64) int {
 }
 
 type wireRig struct {
-	node *simnode.Node
-	wire *simnode.Wire
-	cfg  *config.Dcp
-	cl   couchbase.Client
+	node     *simnode.Node
+	wire     *simnode.Wire
+	cfg      *config.Dcp
+	cl       couchbase.Client
+	lastUUID uint64
 }
 
 func newWireRig() (*wireRig, error) {
@@ -76,6 +77,9 @@ func (r *wireRig) observerTo(vb uint16, got *[]int) couchbase.Observer {
 		if m, ok := a.Event.(models.InternalDcpMutation); ok && got != nil {
 			mu.Lock()
 			*got = append(*got, int(m.SeqNo))
+			if m.Offset != nil {
+				r.lastUUID = uint64(m.Offset.VbUUID) // the branch the offset of the delivered event names
+			}
 			mu.Unlock()
 		}
 	}, func(models.DcpStreamEndContext) {}, map[uint32]string{}, tracing.NewTracerComponent())
@@ -105,6 +109,7 @@ func (r *wireRig) sreq(in map[string]any) map[string]any {
 		burst = append(burst, uint64(q))
 	}
 	var got []int
+	r.lastUUID = 0
 	off := &models.Offset{SnapshotMarker: &models.SnapshotMarker{StartSeqNo: uint64(toInt(in["ss"])), EndSeqNo: uint64(toInt(in["se"]))},
 		VbUUID: gocbVbUUID(uint64(toInt(in["uuid"]))), SeqNo: uint64(toInt(in["seq"])), LatestSeqNo: endOf(toInt(in["latest"]))}
 	ob := r.observerTo(vb, &got)
@@ -142,6 +147,7 @@ func (r *wireRig) sreq(in map[string]any) map[string]any {
 		delivered = append(delivered, q)
 	}
 	res["delivered"] = delivered
+	res["duuid"] = int(r.lastUUID) // vbUUID in the offset of the event delivered last
 	_ = r.cl.CloseStream(vb)
 	return res
 }
